@@ -107,7 +107,16 @@ def main():
             for pr in audit["problems"]:
                 broken.append(pr) if pr not in broken else None
         # correspondence
-        mod.run(ctx)
+        try:
+            mod.run(ctx)
+        except ValueError as e:
+            # safety net: the implementation produced NaN/inf somewhere the check did not anticipate and the exact
+            # conversion refused it. On the unchanged tree this never happens; on a changed tree it is a finding, not a crash.
+            if "non-finite" in str(e) or "NaN" in str(e) or "cannot convert" in str(e):
+                ctx.violation("nonfinite:unanticipated", "the implementation returned non-finite numbers for an input on which the exact model is finite: " + str(e)[:200],
+                              {"traceback": traceback.format_exc()[-1500:], "last_samples": ctx.samples[-2:]})
+            else:
+                raise
     except core.HarnessError as e:
         print(f"HARNESS-ERROR {pid}: {e}")
         traceback.print_exc()
